@@ -41,6 +41,6 @@ meta = json.load(open(os.path.join(out, "meta.json")))
 meta.update({"id": sid, "property": prop, "confirmed": {"demo_at_HEAD": res["head"], "demo_with_patch": res["patched"],
              "how": "tools/seed_confirm.py: demo compiled and run in the scratch worktree at HEAD and with patch.diff applied"},
              "check_run": {"cmd": "VERIF_REPO=<worktree with patch> " + " ".join(check), "exit": res["check_rc"], "output": res["check_lines"]},
-             "caught": res["check_rc"] == 1})
+             "caught": res["check_rc"] == 1 and any("VIOLATION" in l for l in res["check_lines"])})
 json.dump(meta, open(os.path.join(dst, "meta.json"), "w"), indent=1)
 print("stored", dst, "caught =", meta["caught"])
